@@ -258,6 +258,26 @@ pub fn generate(g: &mut Gen, thorough: bool) {
             }
         }
     }
+    // the stack operators with every kind of argument list
+    for sub in ["push", "pop", "flip", "roll", "unroll"] {
+        for args in ["0", "0,0", "-0,0", "1,0", "1,1", "2,1", "2,-1", "2,2", "3,-3", "1,2,3,4", "4,4,4,4", "5", "1,,2", "1,x", "1e30,-1", "9223372036854775807,-1", "-9223372036854775808,1", "1.5,1", "2,1,1", "", "nan,1", "inf,1", "3,0"] {
+            for (pre, post) in [("", ""), ("stack push=1,2,3 | ", ""), ("stack push=1 | ", " | stack pop=1"), ("", " | stack drop"), ("stack push=1,2 | stack swap | ", "")] {
+                let def = format!("{pre}stack {sub}={args}{post}");
+                let d = data(&mut g.rng, 3);
+                g.push(case("default", &[], &def, &d), "oracle-stack-arguments", true);
+            }
+        }
+    }
+    // cyclic parameter references of every length
+    for n in 1..6 {
+        let names = ["x", "y", "z", "rx", "s"];
+        let cyc: Vec<String> = (0..n).map(|i| format!("{}=${}", names[i], names[(i + 1) % n])).collect();
+        for def in [format!("helmert {}", cyc.join(" ")), format!("addone | helmert {} | addone", cyc.join(" ")), format!("helmert {} translation=$x", cyc.join(" "))] {
+            let d = data(&mut g.rng, 2);
+            g.push(case("default", &[], &def, &d), "oracle-cyclic-references", true);
+            g.push(super::op_line("default", &[], &[], &def, "apply", "F", &d), "model-cyclic-references", true);
+        }
+    }
     // the definitions used by the library's own tests and examples, on adversarial coordinates
     for def in &corpus {
         for _ in 0..scale {
